@@ -6,6 +6,7 @@ import (
 	"errors"
 	"fmt"
 	"io"
+	"os"
 	"time"
 
 	"github.com/AdguardTeam/golibs/logutil/slogutil"
@@ -45,6 +46,11 @@ type c20Hist struct {
 	seekTS     func(ts int64) error
 	seekRecord func(t time.Time) error // nil at file level
 	rd         c20Reader
+
+	// rot is the phase of a rotation history, rotated whether the rotation has
+	// happened.
+	rot     string
+	rotated bool
 
 	cursor int // index into lines of the next line ReadNext must return; -1: io.EOF
 	log    []string
@@ -141,7 +147,17 @@ func (h *c20Hist) reads(n int, after string) {
 	if full {
 		m.rec.events["history("+h.level+"):read_runs_reaching_eof"]++
 	}
-	if !m.compare(h.level+"-history:reads-after-"+after, op, got, rerr, exp, full, h.witness(nil)) {
+	if h.rotated {
+		// After the rotation every difference has the same meaning: the reader
+		// does not return the files it was created on.
+		m.noLocus = true
+		ok := m.compare("reader-history:rotation-during-read", op, got, rerr, exp, full, h.witness(map[string]any{"rotation_phase": h.rot}))
+		m.noLocus = false
+		if !ok {
+			h.ended = true
+			return
+		}
+	} else if !m.compare(h.level+"-history:reads-after-"+after, op, got, rerr, exp, full, h.witness(nil)) {
 		h.ended = true
 		return
 	}
@@ -506,5 +522,224 @@ func (m *c20Mon) fileHistories(nops int) {
 		if !m.rec.hung {
 			_ = q.Close()
 		}
+	}
+}
+
+// ---- rotation during a read ---------------------------------------------
+//
+// (*queryLog).rotate renames <log> to <log>.1 (replacing the old <log>.1); the
+// next flush creates a new <log> with O_CREATE|O_APPEND.  A qLogReader opens
+// both files when it is created (newQLogReader) and keeps the descriptors, so
+// a rotation that happens while a search is reading cannot change what the
+// reader returns: exactly the lines the two files had when the reader was
+// created, each once, newest first.  searchFiles relies on this for a
+// consistent page (it creates the reader, seeks and reads up to the scan limit
+// without any lock against rotate).  The histories below rotate in the middle
+// of a read, at every phase, and hold the reader to that.
+
+// c20Rotate does what rotate and the next flush do.
+func (m *c20Mon) c20Rotate(newCurrent int) error {
+	cur := m.c.curPath
+	if err := os.Rename(cur, cur+".1"); err != nil {
+		return err
+	}
+	if newCurrent == 0 {
+		return nil
+	}
+	f, err := os.OpenFile(cur, os.O_WRONLY|os.O_CREATE|os.O_APPEND, 0o644)
+	if err != nil {
+		return err
+	}
+	defer f.Close()
+	if newCurrent == 1 {
+		return nil // created, nothing written yet
+	}
+	// Lines newer than everything the reader knows.
+	base := int64(0)
+	if n := len(m.c.all); n > 0 {
+		base = m.c.all[n-1].ts
+	} else {
+		base = time.Date(2031, 1, 1, 0, 0, 0, 0, time.UTC).UnixNano()
+	}
+	var sb []byte
+	nNew := 1 + m.rng.Intn(40)
+	for i := 0; i < nNew; i++ {
+		base += 1 + m.rng.Int63n(int64(time.Minute))
+		line := c20MakeLine(time.Unix(0, base).UTC().Format(time.RFC3339Nano), 900000+i, c20MinLen+m.rng.Intn(400))
+		sb = append(sb, line...)
+		sb = append(sb, '\n')
+	}
+	_, err = f.Write(sb)
+	return err
+}
+
+var c20RotPhases = []string{"before-any-call", "after-SeekStart", "while-in-current-file", "at-the-file-boundary", "while-in-rotated-file", "after-a-seek-into-the-rotated-file"}
+
+// rotationHistories runs count histories with a rotation in the middle.
+func (m *c20Mon) rotationHistories(count int) {
+	c := m.c
+	two := len(c.files) == 2
+	nAll := len(c.all)
+	nCur := len(c.files[len(c.files)-1].lines)
+	for k := 0; k < count && !m.dead; k++ {
+		if err := c.rewrite(); err != nil {
+			m.rec.inconcl = append(m.rec.inconcl, "cannot restore the files for a rotation history: "+err.Error())
+			return
+		}
+		// The product always names both files; a missing rotated file is
+		// skipped by newQLogReader.
+		r, err := newQLogReader(m.ctx, slogutil.NewDiscardLogger(), []string{c.curPath + ".1", c.curPath})
+		if err != nil {
+			m.rec.violate("open-reader-error", err.Error(), map[string]any{"case": c.describe()})
+			return
+		}
+		var starts []int
+		if two && len(c.files[0].lines) > 0 && nCur > 0 {
+			starts = []int{c.first[1]}
+		}
+		var roles []string
+		for _, f := range c.files {
+			roles = append(roles, f.role)
+		}
+		h := &c20Hist{m: m, level: "reader", lines: c.all, starts: starts, roles: roles,
+			seekStart:  r.SeekStart,
+			seekTS:     func(ts int64) error { return r.seekTS(m.ctx, ts) },
+			seekRecord: func(t time.Time) error { return r.seekRecord(m.ctx, t) },
+			rd:         r, cursor: -1, id: fmt.Sprintf("rot%d", k)}
+		h.note("newQLogReader([%q, %q]) on files as generated", "<log>.1", "<log>")
+		phase := c20RotPhases[m.rng.Intn(len(c20RotPhases))]
+		newCurrent := m.rng.Intn(3)
+		h.rot = phase
+		func() {
+			defer func() {
+				if !m.rec.hung {
+					_ = r.Close()
+				}
+			}()
+			// Bring the reader to the phase.
+			positioned := true
+			switch phase {
+			case "before-any-call":
+				positioned = false
+			case "after-SeekStart":
+				h.position(-1)
+			case "while-in-current-file":
+				if nCur >= 2 {
+					// somewhere in the current file, at least one line of it left
+					start := nAll - 1
+					if m.rng.Intn(2) == 0 {
+						start = nAll - nCur + 1 + m.rng.Intn(nCur-1)
+					}
+					h.position(start)
+					if left := h.cursor - (nAll - nCur); left > 0 && !h.ended {
+						h.reads(m.rng.Intn(left+1), "positioning")
+					}
+				} else {
+					h.position(-1)
+				}
+			case "at-the-file-boundary":
+				h.position(-1)
+				if nCur > 0 && !h.ended {
+					if nCur > 300 { // get there by a seek instead of reading everything
+						h.position(nAll - nCur + m.rng.Intn(20))
+					}
+					if !h.ended {
+						h.reads(h.cursor-(nAll-nCur)+1, "positioning") // the oldest line of the current file was the last one read
+					}
+				}
+			case "while-in-rotated-file":
+				h.position(-1)
+				if !h.ended {
+					if nCur > 300 {
+						h.position(nAll - nCur + m.rng.Intn(20))
+					}
+					if !h.ended {
+						extra := 1
+						if rot := nAll - nCur; rot > 1 {
+							extra = 1 + m.rng.Intn(rot)
+						}
+						h.reads(h.cursor-(nAll-nCur)+1+extra, "positioning")
+					}
+				}
+			case "after-a-seek-into-the-rotated-file":
+				if two && nAll-nCur > 0 {
+					h.position(m.rng.Intn(nAll - nCur))
+				} else {
+					h.position(-1)
+				}
+			}
+			if h.ended || m.dead {
+				return
+			}
+			if err := m.c20Rotate(newCurrent); err != nil {
+				m.rec.inconcl = append(m.rec.inconcl, "rotation step failed: "+err.Error())
+				return
+			}
+			h.rotated = true
+			h.note("ROTATION: rename <log> -> <log>.1 (replacing it); new <log>: %s", []string{"none", "created empty", "created with newer lines"}[newCurrent])
+			m.rec.events["history(reader):rotation:"+phase]++
+			m.rec.events["history(reader):rotations(total)"]++
+			if two && len(c.files[0].lines) > 0 && nCur > 0 {
+				m.rec.events["history(reader):rotation_with_two_non-empty_files:"+phase]++
+			}
+			if !positioned {
+				h.position(-1)
+			}
+			if h.ended || m.dead {
+				return
+			}
+			// Go on reading: everything that is left, then io.EOF.
+			h.reads(h.cursor+2, "rotation")
+			// The same reader afterwards: sweeps and seeks still see the files
+			// it was created on.
+			for i := 0; i < 2 && !h.ended && !m.dead && nAll > 0; i++ {
+				if m.rng.Intn(2) == 0 {
+					h.position(-1)
+				} else {
+					h.position(h.pickPresent())
+				}
+				if !h.ended {
+					n := h.readsCount()
+					if nAll <= 400 {
+						n = h.cursor + 2
+					}
+					h.reads(n, "rotation")
+				}
+			}
+		}()
+		m.rec.events["history(reader):histories"]++
+	}
+}
+
+// position moves the reader to index i with a seek to that line's timestamp,
+// or to the start for i < 0.
+func (h *c20Hist) position(i int) {
+	m := h.m
+	var err error
+	if i < 0 || len(h.lines) == 0 {
+		if !m.guard("history(reader) SeekStart", h.witness(nil), func() { err = h.seekStart() }) {
+			h.ended = true
+			return
+		}
+		h.note("SeekStart -> %s", c20ErrStr(err))
+		h.cursor = len(h.lines) - 1
+	} else {
+		if !m.guard("history(reader) seekTS(present)", h.witness(nil), func() { err = h.seekTS(h.lines[i].ts) }) {
+			h.ended = true
+			return
+		}
+		h.note("seekTS(timestamp of index %d = %d) -> %s", i, h.lines[i].ts, c20ErrStr(err))
+		h.cursor = i
+	}
+	if err != nil {
+		key := h.level + "-history:positioning-error:" + c20ErrClass(err)
+		if h.rotated && !c20IsTSClass(c20ErrClass(err)) {
+			// Not "this timestamp is not there" but the files themselves could
+			// not be used any more.
+			key = "reader-history:rotation-during-read:seek-error"
+		}
+		m.rec.violate(key, "positioning a reader on the files it was created on failed: "+err.Error(),
+			h.witness(map[string]any{"case": m.c.describe(), "rotation_phase": h.rot}))
+		h.ended = true
 	}
 }
